@@ -8,6 +8,8 @@ mod merge;
 mod point;
 mod settings;
 pub mod util;
+#[cfg(feature = "verif")]
+pub mod verif_hooks;
 
 pub use buffer::{
     fragment, fragment::Fragment, Cell, CellBuffer, Direction, FragmentBuffer,
